@@ -3,9 +3,52 @@ from ..common import Run, scratch
 from . import symcommon
 
 
+def history_model(run, d):
+    """Analyzer.tla: cache / reset structure extracted from the live source; a stale-cache counterexample is
+    replayed into the real class (two different crystals through one analyzer object)."""
+    import os
+
+    from .. import analyzer_model, crystals, symobs, symrun, tlc
+
+    path = os.path.join(d, "analyzer_model.json")
+    am = analyzer_model.export(path)
+    res = tlc.run("Analyzer.tla", "Analyzer.cfg", env={"ANALYZER_MODEL": path}, must_pass=False)
+    if res.error:
+        run.model_drift("Analyzer.tla could not be evaluated: %s" % res.error[:200])
+        return
+    run.add_model(res, "Analyzer: cache/reset state machine extracted from the source (%d attributes, %d public methods), NoStaleCache" % (
+        len(am["fields"]), len(am["methods"])))
+    if not res.violated:
+        return
+    reinit = set(am["reinit"])
+    A = symobs.find_crystal(216, 0)["atoms"]
+    B = symobs.find_crystal(62, 0)["atoms"]
+    fresh = symrun.observe(B)
+    for m in am["methods"]:
+        stale = sorted(set(m["assigns"]) - reinit)
+        if not stale:
+            continue
+        try:
+            from matid.symmetry import SymmetryAnalyzer
+
+            an = SymmetryAnalyzer(A, symmetry_tol=crystals.TOL)
+            getattr(an, m["name"])()
+            reused = symrun.observe(B, reuse=an)
+        except Exception as e:
+            reused = {"error": "%s: %s" % (type(e).__name__, e)}
+        diff = sorted(k for k in fresh if k not in ("reused_analyzer",) and reused.get(k) != fresh[k])
+        if diff:
+            run.violation("C12 history method=%s stale=%s" % (m["name"], stale),
+                          "after %s() on another crystal and set_system(), the analyzer reports different %s than a fresh analyzer (attributes %s are not re-initialised by set_system)" % (
+                              m["name"], diff[:6], stale), {"method": m["name"], "stale": stale, "differs": diff})
+        else:
+            run.model_drift("Analyzer.tla: attributes %s filled by %s() survive set_system(), no observable difference found" % (stale, m["name"]))
+
+
 def run(tier):
     run = Run("C12", tier, "exploration")
     d = scratch("c12")
+    history_model(run, d)
     streams = [0] if tier == "quick" else [0, 1, 2, 3]
     jobs = [(sg, s, 3 if tier == "quick" else 4, None, 64, "C12") for sg in range(1, 231) for s in streams]
     recs = symcommon.collect(run, jobs)
